@@ -43,7 +43,7 @@ func checkC07(w *Worker) {
 	}
 	const today = "2021/01/27"
 	var exactSpecials []specialScenario
-	for _, sc := range specialScenarios() {
+	for _, sc := range specialsFor(w.Tier) {
 		if sc.Exact && len(sc.Log) >= 2 {
 			exactSpecials = append(exactSpecials, sc)
 		}
